@@ -19,6 +19,9 @@ structure QE (p : Parent) (control : Bool) (o o' : Obj) : Prop where
   /-- the package is a non-controlling owner -/
   pkg : ∀ q, pkgRef p = some q → q.uid ≠ p.uid → q ∈ o'.owners
   valid : ctrlCount o'.owners ≤ 1
+  /-- an inactive parent's own entry (the first with its uid, as `ReleaseObjects` and
+  `meta.AddOwnerReference` look it up) is not a controller reference afterwards -/
+  released : control = false → ∀ x, o'.owners.find? (fun r => r.uid = p.uid) = some x → x.isCtrl = false
 
 /-- what Establish may create -/
 structure CE (p : Parent) (control : Bool) (o' : Obj) : Prop where
@@ -40,6 +43,7 @@ theorem QE.trans (p : Parent) (control : Bool) (a b c : Obj) (h1 : QE p control 
   mine := h2.mine
   pkg := h2.pkg
   valid := h2.valid
+  released := h2.released
 
 theorem CE.step (p : Parent) (control : Bool) (a b : Obj) (h1 : CE p control a) (h2 : QE p control a b) :
     CE p control b where
@@ -103,7 +107,7 @@ theorem updateSub_QE (p : Parent) (control : Bool) (c₀ cur des sub : Obj) (n :
       subst h
       subst e
       simp only at hv
-      refine ⟨hdk.symm, ?_, ?_, (fun h => nomatch h), mem_addOwner_self _ _, ?_, hv⟩
+      refine ⟨hdk.symm, ?_, ?_, (fun h => nomatch h), mem_addOwner_self _ _, ?_, hv, (fun h => nomatch h)⟩
       · intro u h
         exact hasUid_addOwner _ _ _ (hasUid_withPkg p _ _ (hu u h))
       · intro u ⟨r, hr, hru, hrc⟩
@@ -116,7 +120,8 @@ theorem updateSub_QE (p : Parent) (control : Bool) (c₀ cur des sub : Obj) (n :
     simp only [Bool.false_eq_true, if_false, Except.ok.injEq] at h
     subst h
     simp only at hv
-    refine ⟨hk, ?_, ?_, fun _ => hb, mem_addOwner_self _ _, ?_, hv⟩
+    refine ⟨hk, ?_, ?_, fun _ => hb, mem_addOwner_self _ _, ?_, hv,
+      fun _ x hx => by rw [← asOwner_uid p, find_addOwner_self] at hx; cases hx; rfl⟩
     · intro u h
       exact hasUid_addOwner _ _ _ (hasUid_withPkg p _ _ (hu u h))
     · intro u h
